@@ -598,6 +598,14 @@ def check(ctx):
     for rule, key, ok, where, what, detail in sub.got:
         if rule == 'R8.7-pure-evaluation' and key in ('methods', 'module-state'):
             ctx.ob('R18.3-rate-equations', '%s/%s' % (rule, key), ok, where, what, detail)
+    # ... and, for 'general' rates, with the expression the user wrote: every name of the string stays a symbol while it is parsed (a
+    # parameter called E is not Euler's number) and the tree is translated node by node (C02 R2.3-parse-neutral, R2.2) - re-emitted
+    from . import c02
+    sub = SubCtx(ctx)
+    c02.check_translation(sub)
+    for rule, key, ok, where, what, detail in sub.got:
+        if rule in ('R2.3-parse-neutral', 'R2.2-translation'):
+            ctx.ob('R18.3-rate-equations', '%s/%s' % (rule, key), ok, where, what, detail)
     ctx.floor('R18.1-stencil', 8)
     ctx.floor('R18.2-orientation', 8)
     ctx.floor('R18.4-restore', 8)
